@@ -1528,3 +1528,176 @@ def cancelled_awaitable(doc):
         return None
 
     return _run(main())
+
+
+# ---------------------------------------------------------------------------------------------------- C16
+def remote_equals_direct(doc):
+    """bounded search over an in-process communicator: every control message (RPC and broadcast) at several points of a
+    three-step process against the direct call on a twin; state-change broadcasts exactly once and in order; tolerated
+    broadcast failures; a terminated process is unreachable"""
+    import kiwipy
+    import plumpy
+    from aio_pika.exceptions import ChannelInvalidStateError, ConnectionClosed
+    from plumpy import process_comms
+
+    class Comm(kiwipy.LocalCommunicator):
+        def __init__(self, fail_subject=None, exception=None):
+            super().__init__()
+            self.fail_subject, self.exception, self.failed = fail_subject, exception, 0
+
+        def broadcast_send(self, body, sender=None, subject=None, correlation_id=None):
+            if subject == self.fail_subject and not self.failed:
+                self.failed += 1
+                raise self.exception
+            return super().broadcast_send(body, sender=sender, subject=subject, correlation_id=correlation_id)
+
+    class Three(plumpy.Process):
+        def run(self):
+            return plumpy.Wait(self.second, msg='waiting')
+
+        def second(self, *args):
+            return plumpy.Continue(self.third)
+
+        def third(self):
+            return 7
+
+    async def unwrap(v):
+        for _ in range(10):
+            if isinstance(v, kiwipy.Future):
+                for _ in range(50):
+                    if v.done():
+                        break
+                    await asyncio.sleep(0)
+                if not v.done():
+                    return '<pending>'
+                try:
+                    v = v.result()
+                except Exception as e:  # noqa
+                    return ('<raised>', type(e).__name__)
+            elif asyncio.isfuture(v):
+                for _ in range(50):
+                    if v.done():
+                        break
+                    await asyncio.sleep(0)
+                if not v.done():
+                    return '<pending>'
+                try:
+                    v = v.result()
+                except Exception as e:  # noqa
+                    return ('<raised>', type(e).__name__)
+            else:
+                return v
+        return v
+
+    def snapshot(p):
+        return (p.state.name, p.paused, p.status if p.paused else None, p.killed_msg()['message'] if p.state.name == 'KILLED' else None)
+
+    async def at_point(proc, point):
+        if point >= 1:
+            await proc.step()
+        if point >= 2:
+            await proc.step()       # now WAITING (not stepping)
+
+    builder = process_comms.MessageBuilder
+    ops = {
+        'pause': (lambda p: p.pause('why'), lambda: builder.pause('why')),
+        'pause-no-text': (lambda p: p.pause(), lambda: builder.pause()),
+        'play': (lambda p: p.play(), lambda: builder.play()),
+        'kill': (lambda p: p.kill('stop it'), lambda: builder.kill('stop it')),
+        'pause+play': (lambda p: (p.pause('x'), p.play())[1], None),
+    }
+
+    async def main():
+        bad = []
+        for point in (0, 1, 2):
+            for name, (direct, message) in ops.items():
+                if message is None:
+                    continue
+                for via in ('rpc', 'broadcast'):
+                    comm = Comm()
+                    a, b = Three(communicator=comm), Three()
+                    await at_point(a, point)
+                    await at_point(b, point)
+                    if name == 'play':
+                        a.pause('before')
+                        b.pause('before')
+                    want = await unwrap(direct(b))
+                    if via == 'rpc':
+                        got = await unwrap(comm.rpc_send(str(a.pid), message()))
+                    else:
+                        subj = {'pause': 'pause', 'pause-no-text': 'pause', 'play': 'play', 'kill': 'kill'}[name]
+                        comm.broadcast_send(None if name == 'play' else message(), subject=subj, sender='someone')
+                        got = want
+                    await _settle(20)
+                    if got != want:
+                        bad.append(f'{name} at point {point} via {via}: remote reply {got!r}, direct call returns {want!r}')
+                    if snapshot(a) != snapshot(b):
+                        bad.append(f'{name} at point {point} via {via}: remotely controlled process {snapshot(a)}, directly controlled twin {snapshot(b)}')
+            # status
+            comm = Comm()
+            a = Three(communicator=comm)
+            await at_point(a, point)
+            st = await unwrap(comm.rpc_send(str(a.pid), builder.status()))
+            if not isinstance(st, dict) or set(st) != {'ctime', 'paused', 'process_string', 'state'} or st['state'] != str(a.state) \
+                    or st['paused'] != a.paused or st['ctime'] != a.creation_time:
+                bad.append(f'status at point {point}: {st!r}')
+        if doc.get('tier') == 'thorough':
+            # a control message that arrives in the middle of a LONG step: the reply waits for the step, like the direct call
+            class Slow(plumpy.Process):
+                async def run(self):
+                    await asyncio.sleep(6.5)
+                    return 1
+            comm = Comm()
+            a, b = Slow(communicator=comm), Slow()
+            ta, tb = asyncio.ensure_future(a.step_until_terminated()), asyncio.ensure_future(b.step_until_terminated())
+            await asyncio.sleep(0.2)
+            fa = comm.rpc_send(str(a.pid), builder.pause('slow'))
+            fb = b.pause('slow')
+            await asyncio.sleep(7.5)
+            got, want = await unwrap(fa), await unwrap(fb)
+            if got != want or snapshot(a) != snapshot(b):
+                bad.append(f'pause during a 6.5 s step: remote reply {got!r} / process {snapshot(a)}; direct {want!r} / {snapshot(b)}')
+            ta.cancel()
+            tb.cancel()
+        # unknown intent is an error and does nothing
+        comm = Comm()
+        a = Three(communicator=comm)
+        r = await unwrap(comm.rpc_send(str(a.pid), {process_comms.INTENT_KEY: 'explode'}))
+        if not (isinstance(r, tuple) and r[0] == '<raised>') or snapshot(a) != ('CREATED', False, None, None):
+            bad.append(f'unknown intent: reply {r!r}, process {snapshot(a)}')
+        # announcements: each completed transition once, in order; tolerated failures do not disturb the process
+        subjects = ['state_changed.None.created', 'state_changed.created.running', 'state_changed.running.waiting',
+                    'state_changed.waiting.running', 'state_changed.running.running', 'state_changed.running.finished']
+        for fail, exc in [(None, None)] + [(s_, e) for s_ in subjects[:-1]
+                                           for e in (ConnectionClosed(), ChannelInvalidStateError(), kiwipy.TimeoutError())]:
+            comm = Comm(fail, exc)
+            heard = []
+            comm.add_broadcast_subscriber(lambda c, body=None, sender=None, subject=None, correlation_id=None:
+                                          heard.append((sender, subject, body)) if str(subject).startswith('state_changed') else None)
+            try:
+                a = Three(communicator=comm)
+                task = asyncio.ensure_future(a.step_until_terminated())
+                await _settle(10)
+                a.resume('go')
+                await _settle(40)
+                task.cancel()
+            except Exception as e:  # noqa
+                bad.append(f'broadcast failure {type(exc).__name__} at {fail} disturbed the process: {type(e).__name__}: {e}')
+                continue
+            want = [(a.pid, s_, None) for s_ in subjects if s_ != fail]
+            if a.state.name != 'FINISHED' or a.result() != 7:
+                bad.append(f'broadcast failure {type(exc).__name__ if exc else None} at {fail}: process ended {a.state.name}')
+            if heard != want:
+                bad.append(f'broadcast failure {type(exc).__name__ if exc else None} at {fail}: announcements {[h[1] for h in heard]}, '
+                           f'expected {[w[1] for w in want]} (sender/body as announced: {heard[:1]})')
+            # a terminated process no longer receives messages
+            try:
+                comm.rpc_send(str(a.pid), builder.status())
+                bad.append('a terminated process is still reachable over RPC')
+            except kiwipy.UnroutableError:
+                pass
+            if len(bad) > 3:
+                break
+        return '; '.join(bad[:4]) or None
+
+    return _run(main())
